@@ -905,3 +905,17 @@ def load_module(source: str, workdir: str, tag: str = 'm'):
 
 def unload(mod):
     sys.modules.pop(mod.__name__, None)
+
+
+def drop_caches():
+    """harness memory hygiene for long runs: the default interpreter memoizes the compiled form of every function it ever ran
+    (BytecodeInterpreter.func_cache, keyed by the FuncDef, never evicted) and linecache keeps every generated file"""
+    import linecache
+    try:
+        from fpy2.interpret import get_default_interpreter
+        rt = get_default_interpreter()
+        if hasattr(rt, 'func_cache'):
+            rt.func_cache.clear()
+    except Exception:
+        pass
+    linecache.clearcache()
